@@ -69,9 +69,9 @@ def results_standard(mon, fs, job):
     if N == 0:
         return
     logL = nested["logL"].astype(float)
-    if not np.all(np.diff(logL) >= 0):
+    if not np.all(logL[1:] >= logL[:-1]):
         V("returned-likelihoods-not-ascending",
-          f"first decrease at {int(np.argmax(np.diff(logL) < 0))}")
+          f"first decrease at {int(np.argmax(logL[1:] < logL[:-1]))}")
     # faithful to the model
     ulps = 0
     with model.quiet():
@@ -216,8 +216,10 @@ def results_ins(mon, fs, job):
     if ns._final_samples is None and N != n_expected:
         V("len(samples)!=sum-of-draws", f"{N} vs {n_expected}")
     logL = unit["logL"].astype(float)
-    if not np.all(np.diff(logL) >= 0):
-        V("returned-likelihoods-not-ascending", "")
+    # (comparison, not a difference: several samples may sit at -inf)
+    if not np.all(logL[1:] >= logL[:-1]):
+        V("returned-likelihoods-not-ascending",
+          f"first decrease at {int(np.argmax(logL[1:] < logL[:-1]))}")
     lw = logL + unit["logW"]
     z_ref = float(logsumexp(lw) - math.log(N))
     tol = 64 * np.spacing(max(1.0, abs(z_ref))) + 8e-16 * N
